@@ -92,7 +92,9 @@ func genUP4Sess(t *rapid.T, idx, peer int, alloc bool, precWide bool) (model.Op,
 		q2 := genQER(t, 2, false)
 		q1.GBRUL, q1.GBRDL, q2.GBRUL, q2.GBRDL = 0, 0, 0, 0
 		if excluded("up4AppQerAsymmetricRates") {
+			// KF-C09-D32: whichever of the two the agent makes the application QER must have one rate
 			q1.MBRDL = q1.MBRUL
+			q2.MBRDL = q2.MBRUL
 		}
 		op.QERs = []model.QER{q1, q2}
 		ql = []uint32{1, 2}
